@@ -647,7 +647,8 @@ func canonScript(o *ScriptObs, rundir, final string, present bool) string {
 	}
 	var pb strings.Builder
 	for _, p := range o.Probes {
-		pb.WriteString(";" + relCwd(o.Workdir, p.Cwd) + "@" + renderEnvRun(p.Env, o.Workdir, rundir, true) + "@" + p.Tree)
+		// the environment of the program includes the PWD it was given (the model: child_env)
+		pb.WriteString(";" + relCwd(o.Workdir, p.Cwd) + "@" + renderEnvRun(p.Env, o.Workdir, rundir, false) + "@" + p.Tree)
 	}
 	var hs []int
 	for _, b := range o.Bg {
@@ -895,6 +896,57 @@ func (rn *runner) evalBatch(b *Batch, withAlone bool, sched []int) ([]finding, *
 				break
 			}
 		}
+		// what a program started by the script sees: its PWD is the directory it runs in, which is a
+		// directory of the script's own work directory (foreground commands: the probes; background
+		// commands: the helpers record their environment when they start)
+		type childView struct {
+			what, cwd string
+			env       []string
+		}
+		var views []childView
+		for k, p := range o.Probes {
+			views = append(views, childView{fmt.Sprintf("probe %d (foreground exec)", k+1), p.Cwd, p.Env})
+		}
+		for _, bg := range o.Bg {
+			var rec struct {
+				Cwd string   `json:"cwd"`
+				Env []string `json:"env"`
+			}
+			if data, err := os.ReadFile(filepath.Join(ro.dir, "obs", fmt.Sprintf("bgenv-%d.json", bg.Pid))); err == nil && json.Unmarshal(data, &rec) == nil {
+				views = append(views, childView{fmt.Sprintf("background command b%d (exec &)", bg.H), rec.Cwd, rec.Env})
+			}
+		}
+		for _, v := range views {
+			rn.rmu.Lock()
+			rn.res.Count("child-env-views")
+			rn.rmu.Unlock()
+			pwd, has := "", false
+			for _, kv := range v.env {
+				if val, ok := strings.CutPrefix(kv, "PWD="); ok {
+					pwd, has = val, true
+				}
+				if strings.Contains(kv, ro.canary) || strings.HasPrefix(kv, "VERIF_CANARY=") {
+					add("impl-violation", "env/canary", "host variable visible to a program started by script "+o.Name+" ("+v.what+"): "+kv, "", "")
+					break
+				}
+			}
+			if !has || pwd != v.cwd {
+				got := "no PWD at all"
+				if has {
+					got = "PWD=" + pwd
+				}
+				add("impl-violation", "env/child-pwd", fmt.Sprintf("script %s, %s: the program runs in %s but its environment has %s", o.Name, v.what,
+					strings.ReplaceAll(v.cwd, o.Workdir, "$WORK"), strings.ReplaceAll(got, o.Workdir, "$WORK")), "PWD="+strings.ReplaceAll(v.cwd, o.Workdir, "$WORK"), got)
+				break
+			}
+			if o.Workdir != "" && v.cwd != o.Workdir && !strings.HasPrefix(v.cwd, o.Workdir+"/") {
+				add("impl-violation", "workdir/child-cwd", fmt.Sprintf("script %s, %s: the program runs in %s, outside the work directory of its script", o.Name, v.what, v.cwd), "", "")
+				break
+			}
+		}
+		if len(o.AliveAtEnd) > 0 {
+			add("impl-violation", "process-left/at-script-end", fmt.Sprintf("script %s (%s): when its subtest function returned, background commands it had started were still running and had not been waited for: %s", o.Name, o.Verdict, strings.Join(o.AliveAtEnd, ", ")), "", strings.Join(o.AliveAtEnd, ","))
+		}
 		// $WORK at start = the archive
 		want, ok := expectedSetupTree(&b.Scripts[i])
 		if o.HaveSetup && (!ok || o.SetupTree != want) {
@@ -946,7 +998,14 @@ func (rn *runner) evalBatch(b *Batch, withAlone bool, sched []int) ([]finding, *
 		normEnv = append(normEnv, strings.ReplaceAll(kv, ro.dir, "$RUN"))
 		if v, ok := strings.CutPrefix(kv, "PATH="); ok {
 			for _, p := range append([]string{"helper"}, progPool...) {
-				hostTab[[2]string{strings.ReplaceAll(v, ro.dir, "$RUN"), p}] = lookPath(v, p)
+				found := lookPath(v, p)
+				if strings.Contains(p, "/") {
+					// a name with a separator is not searched for: it is tried as it is, relative to the
+					// directory of the test process
+					st, err := os.Stat(filepath.Join(ro.dir, p))
+					found = err == nil && !st.IsDir() && st.Mode()&0o111 != 0
+				}
+				hostTab[[2]string{strings.ReplaceAll(v, ro.dir, "$RUN"), p}] = found
 			}
 		}
 	}
@@ -1279,6 +1338,103 @@ func linkPair() Batch {
 	return Batch{Procs: 2, Par: 8, Canary: true, Scripts: []Script{a, b}}
 }
 
+// setupVarsBatch: Params.Setup functions that drop, empty or filter Env.Vars (a hermetic allow-list that
+// may keep nothing), scripts that start programs (foreground probes, background commands by name and by
+// absolute path) before and after their first `env` line and after cd.
+func setupVarsBatch() Batch {
+	files := []File{{Path: "a.txt", Data: "x\n"}, {Path: "d/b.txt", Data: "y\n"}}
+	b := Batch{Procs: 4, Par: 8, Canary: true, Cover: true}
+	b.Scripts = []Script{
+		{Name: "varsnil", SetupVars: "nil", Files: files, Body: []Action{{Op: "O"}, {Op: "C", Path: "d"}, {Op: "O"}, {Op: "G", ID: 30, Flag: true}, {Op: "E", Key: "FOO", Data: "1"}, {Op: "O"}}},
+		{Name: "varsempty", SetupVars: "empty", Files: files, Body: []Action{{Op: "G", ID: 31, Flag: true}, {Op: "O"}, {Op: "M", Path: "n"}, {Op: "C", Path: "n"}, {Op: "O"}}},
+		{Name: "varsnone", SetupVars: "keep:NOSUCHVAR", Files: files, Body: []Action{{Op: "O"}, {Op: "G", ID: 30, Flag: true}, {Op: "F"}}},
+		{Name: "varskeep", SetupVars: "keep:WORK,PATH,:", Files: files, Body: []Action{{Op: "O"}, {Op: "G", ID: 1, Flag: true}, {Op: "P", Path: "d", Flag: true}, {Op: "C", Path: "d"}, {Op: "O"}}},
+		{Name: "varshome", SetupVars: "keep:PATH,HOME", Files: files, Body: []Action{{Op: "H", Key: "hostcanary"}, {Op: "O"}, {Op: "G", ID: 32}, {Op: "O"}}},
+		{Name: "varsadds", SetupVars: "nil", Adds: []KV{{"EXTRA", "v"}}, Files: files, Body: []Action{{Op: "O"}, {Op: "G", ID: 30, Flag: true}, {Op: "S"}}},
+		{Name: "varsplain", Files: files, Adds: []KV{{"SUB", "$WORK/sub"}}, Body: []Action{{Op: "O"}, {Op: "C", Path: "d"}, {Op: "G", ID: 30, Flag: true}, {Op: "G", ID: 1, Flag: true}, {Op: "E", Key: "PWD", Data: "/elsewhere"}, {Op: "O"}}},
+	}
+	return b
+}
+
+// deferExitsBatch: deferred functions (registered by Setup and by the script) that do not return - they
+// panic, fail or skip the test through its T, call ts.Fatalf - in runs that leave the script loop early
+// (a failing line, a custom command ending the run through T.Skip / T.FailNow / T.Fatal, a panicking
+// command) while background commands are still running, one of them slow to shut down; and the same
+// early exits without any deferred function.
+func deferExitsBatch() Batch {
+	b := Batch{Procs: 4, Par: 8, Canary: true}
+	kinds := []struct {
+		name string
+		id   int
+		bad  bool
+	}{{"panic", 7, true}, {"failnow", 200, false}, {"fatal", 201, false}, {"skip", 300, false}, {"tsfatalf", 400, false}}
+	exits := []struct {
+		name string
+		act  []Action
+	}{{"fail", []Action{{Op: "F"}}}, {"tskip", []Action{{Op: "S"}}}, {"tfail", []Action{{Op: "A"}}}, {"tfatal", []Action{{Op: "A", Flag: true}}},
+		{"boom", []Action{{Op: "Z"}}}, {"skipcmd", []Action{{Op: "K"}}}, {"end", nil}, {"stop", []Action{{Op: "T"}}}}
+	n := 0
+	for ki, k := range kinds {
+		for ei, e := range exits {
+			// every kind with every early exit; the orderly ends (skip command, end of script, stop) with two kinds each
+			if ei >= 5 && (ki+ei)%3 != 0 {
+				continue
+			}
+			n++
+			body := []Action{{Op: "D", ID: 1}, {Op: "D", ID: k.id, Flag: k.bad}, {Op: "G", ID: 1, Flag: true}}
+			if n%3 == 0 {
+				body = append(body, Action{Op: "G", ID: 50 + n, Flag: true})
+			}
+			body = append(body, Action{Op: "D", ID: 2}, Action{Op: "O"})
+			body = append(body, e.act...)
+			sc := Script{Name: fmt.Sprintf("%s%s", k.name, e.name), Files: []File{{Path: "a.txt", Data: "x\n"}}, Body: body}
+			if n%4 == 1 && k.name != "tsfatalf" {
+				// the same kind of function registered by Params.Setup as well
+				sc.Defers = []DeferSpec{{ID: 100}, {ID: k.id + 10, Bad: k.bad}}
+			}
+			b.Scripts = append(b.Scripts, sc)
+		}
+	}
+	// early exits that do not set ts.failed, a background command that takes a while to shut down, no
+	// deferred function at all
+	for _, e := range exits[1:5] {
+		b.Scripts = append(b.Scripts, Script{Name: "slow" + e.name, Files: []File{{Path: "a.txt", Data: "x\n"}},
+			Body: append([]Action{{Op: "G", ID: 60, Flag: true}, {Op: "G", ID: 2, Flag: true}, {Op: "O"}}, e.act...)})
+	}
+	return b
+}
+
+// execPathCondPair: as execCachePair, with a program name that has a separator: such a name is not
+// looked up on any PATH and not relative to the script's directory either, so neither script finds it.
+func execPathCondPair() Batch {
+	a := Script{Name: "a", Files: []File{{Path: "bin/mytool", Data: "#!/bin/sh\nexit 0\n"}},
+		Body: []Action{{Op: "X", Path: "bin/mytool"}, {Op: "I", Key: "bin/mytool", Sub: &Action{Op: "T"}}, {Op: "C", Path: "bin"},
+			{Op: "I", Key: "./mytool", Sub: &Action{Op: "T"}}, {Op: "F"}}}
+	b := Script{Name: "b", DelayMs: 250,
+		Body: []Action{{Op: "I", Key: "bin/mytool", Sub: &Action{Op: "F"}}, {Op: "I", Key: "./mytool", Sub: &Action{Op: "F"}}, {Op: "O"}}}
+	return Batch{Procs: 2, Par: 8, Canary: true, Scripts: []Script{a, b}}
+}
+
+// bigTreesBatch: a script with a large work directory and small scripts that finish just after it, while
+// its clean-up is under way (Script.EndMark / EndAfter): the last one to finish - the one that has to
+// remove the shared root - is a quick one, and the big one is still being removed.
+func bigTreesBatch(files int) Batch {
+	b := Batch{Procs: 4, Par: 8, Canary: true}
+	big := Script{Name: "big", EndMark: true, Body: []Action{{Op: "D", ID: 1}}}
+	for k := 0; k < files; k++ {
+		big.Files = append(big.Files, File{Path: fmt.Sprintf("t/d%d/e%d/f%d.txt", k%7, k%5, k), Data: "x\n"})
+	}
+	small := func(name string, after ...string) Script {
+		return Script{Name: name, EndAfter: after, Files: []File{{Path: "a.txt", Data: "x\n"}}, Body: []Action{{Op: "D", ID: 1}, {Op: "O"}}}
+	}
+	mid := Script{Name: "mid", EndMark: true, EndAfter: []string{"big"}, Body: []Action{{Op: "D", ID: 2}}}
+	for k := 0; k < files/4; k++ {
+		mid.Files = append(mid.Files, File{Path: fmt.Sprintf("u/d%d/f%d.txt", k%9, k), Data: "y\n"})
+	}
+	b.Scripts = []Script{big, small("early"), mid, small("afterbig", "big"), small("last", "big", "mid")}
+	return b
+}
+
 func rep(i, n int) []int {
 	out := make([]int, n)
 	for k := range out {
@@ -1426,6 +1582,35 @@ func (rn *runner) mainC04() {
 		hc.ContinueOnError = true
 		addB(hc, "hand")
 	}
+	// Setup functions that replace or filter the variable list; deferred functions that do not return
+	// combined with early exits and live background commands; [exec:...] conditions with a path
+	addB(setupVarsBatch(), "hand-setup-vars")
+	sv := setupVarsBatch()
+	sv.Retain, sv.NonRoot, sv.Verbose = "testwork", rn.nonRoot, true
+	addB(sv, "hand-setup-vars")
+	addB(deferExitsBatch(), "hand-defer-exits")
+	de := deferExitsBatch()
+	de.NonRoot, de.ContinueOnError, de.Procs = rn.nonRoot, true, 2
+	{
+		// (a third of the scripts: each of them is also run alone)
+		var sub []Script
+		for i := range de.Scripts {
+			if i%3 == 1 {
+				sub = append(sub, de.Scripts[i])
+			}
+		}
+		de.Scripts = sub
+	}
+	addB(de, "hand-defer-exits")
+	// large work directories whose clean-ups overlap, the last script to finish among them
+	addB(bigTreesBatch(400), "hand-big-trees")
+	bt2 := bigTreesBatch(160)
+	bt2.Procs, bt2.NonRoot = 8, rn.nonRoot
+	addB(bt2, "hand-big-trees")
+	addB(execPathCondPair(), "hand")
+	epr := execPathCondPair()
+	epr.Scripts[0].DelayMs, epr.Scripts[1].DelayMs = 250, 0
+	addB(epr, "hand")
 	// the same scripts under a T that runs the subtests one after the other
 	sq := exitPathsBatch()
 	sq.SeqT, sq.NonRoot = true, rn.nonRoot
@@ -1513,7 +1698,7 @@ func (rn *runner) mainC04() {
 	if n := skipped.Load(); n > 0 {
 		res.Notes = append(res.Notes, fmt.Sprintf("%d batches were not run: three children had already hung and had to be killed", n))
 	}
-	res.Rule = fmt.Sprintf("before and after every run a snapshot (names, types, sizes, modes, owners, times, content hashes) of sentinel trees outside the work directories (a host directory with files and directories of several modes, owned by the user the child runs as; the directory of the helper programs) is compared; scripts create symbolic links (to host sentinels, to siblings' files and directories, dangling, into their own tree), read-only files and directories, and use rm; clean-up jobs: trees of directories, files and links of every kind (absolute, relative, chained, looping) built by Setup, the script ending passed / failed / skipped / stopped, with and without `rm <sub>`, a parallel sibling recording its own directory after the clean-up, everything observed compared with remove_all_now of TsCleanup.v; a pair of scripts with links into each other's directory under schedules that put `rm` and the clean-up of one between two looks of the other; corpus batches; the execCache pair in both start orders and, with the harness holding the turn (a T whose Parallel parks the subtest and a gate command before every script line), under all %d interleavings of its lines; the pair whose archive names files outside the work directory; RunT without any script; a hand-written batch covering every exit path (pass, fail, skip, stop, setup failure, panicking custom command, panicking deferred function) with defers, background processes and read-only directories under each retention mode, with and without ContinueOnError; then %d generated batches of 2-8 scripts (with kill / kill+wait, ContinueOnError, $WORK-named and escaping archive entries), each run free under three settings of GOMAXPROCS / subtest parallelism / start delays / verbosity and gated under a random and a sequential schedule, the model being asked for the same schedule; every script is also run alone; children built with -race, unprivileged when possible; a batch is non-trivial when some script has defers, background processes, probes or does not pass; distinct = distinct (retention, verdicts, defer orders, probe counts)",
+	res.Rule = fmt.Sprintf("before and after every run a snapshot (names, types, sizes, modes, owners, times, content hashes) of sentinel trees outside the work directories (a host directory with files and directories of several modes, owned by the user the child runs as; the directory of the helper programs) is compared; scripts create symbolic links (to host sentinels, to siblings' files and directories, dangling, into their own tree), read-only files and directories, and use rm; clean-up jobs: trees of directories, files and links of every kind (absolute, relative, chained, looping) built by Setup, the script ending passed / failed / skipped / stopped, with and without `rm <sub>`, a parallel sibling recording its own directory after the clean-up, everything observed compared with remove_all_now of TsCleanup.v; a pair of scripts with links into each other's directory under schedules that put `rm` and the clean-up of one between two looks of the other; corpus batches; the execCache pair in both start orders and, with the harness holding the turn (a T whose Parallel parks the subtest and a gate command before every script line), under all %d interleavings of its lines; the pair whose archive names files outside the work directory; RunT without any script; a hand-written batch covering every exit path (pass, fail, skip, stop, setup failure, panicking custom command, panicking deferred function) with defers, background processes and read-only directories under each retention mode, with and without ContinueOnError; then %d generated batches of 2-8 scripts (with kill / kill+wait, ContinueOnError, $WORK-named and escaping archive entries), each run free under three settings of GOMAXPROCS / subtest parallelism / start delays / verbosity and gated under a random and a sequential schedule, the model being asked for the same schedule; Setup functions that drop, empty or filter Env.Vars (allow-lists that may keep nothing) with programs started before the first env line, in the foreground and in the background (by name and by absolute path): every started program must see no host variable and a PWD equal to the directory it runs in; deferred functions (of Setup and of the script) that panic, call FailNow / Fatal / Skip on the T or call ts.Fatalf, in runs left early by a failing line, by T.Skip / T.FailNow / T.Fatal from a custom command or by a panicking command while background commands (one of them slow to shut down) are running: every recorded pid is looked up in /proc (pid and start time) at the moment the subtest function returns; [exec:...] conditions naming programs with a separator; a script with a large work directory and quick scripts that are made to finish while its clean-up is under way (two more deferred functions of Setup order the ends), the last of them having to remove the shared root; every script is also run alone; children built with -race, unprivileged when possible; a batch is non-trivial when some script has defers, background processes, probes or does not pass; distinct = distinct (retention, verdicts, defer orders, probe counts)",
 		len(interleavings([]int{turns(&gp.Scripts[0]), turns(&gp.Scripts[1])}, 64)), n)
 }
 
